@@ -6,6 +6,9 @@ R1 RIGHTS-MONOTONE (a proof, not a sample): from make_move, make_move_new and nu
    from_index(to_index(old) & !to_index(arg)) into the slot it read (finite maps over the 4x4 rights
    values give a bitwise subset) => the successor's rights are a subset of the source's, for every
    move and every history.
+R3 RIGHTS-FOLLOW-PLACEMENT (= C02.R5) and R4 MATERIAL-TOGGLES (= C02.R7/R8): rights are dropped,
+   unconditionally, for the opponent by the destination square and for the mover by the source
+   square; every placement toggle is one of the prescribed remove/add pairs.
 R2 SANITY-GATE: Board literals exist only in the private constructor; every public construction of a
    Board from non-Board data returns Ok only on the true edge of is_sane() evaluated on exactly the
    value returned, or delegates to such a constructor."""
@@ -160,6 +163,63 @@ def r2(ctx, rule='C05.R2'):
     ctx.floor(R, 'public Board constructors from non-Board data (besides the gate)', n, 4)
 
 
+class _Sub:
+    """collects the findings of another rule set so that selected rules can be re-labelled"""
+
+    def __init__(self, ctx, mapping):
+        self.ctx = ctx
+        self.mapping = mapping
+
+    def __getattr__(self, name):
+        return getattr(self.ctx, name)
+
+    def _m(self, rule):
+        return self.mapping.get(rule)
+
+    def ok(self, rule, desc, where=''):
+        if self._m(rule):
+            self.ctx.ok(self._m(rule), desc, where)
+
+    def instance(self, rule, desc, where=''):
+        if self._m(rule):
+            self.ctx.instance(self._m(rule), desc, where)
+
+    def violation(self, rule, key, msg, where=''):
+        if self._m(rule):
+            self.ctx.violation(self._m(rule), key, msg, where)
+
+    def inconclusive(self, rule, reason):
+        if self._m(rule):
+            self.ctx.inconclusive(self._m(rule), reason)
+
+    def bulk(self, rule, total, discharged):
+        if self._m(rule):
+            self.ctx.bulk(self._m(rule), total, discharged)
+
+    def floor(self, rule, what, count, minimum):
+        if self._m(rule):
+            return self.ctx.floor(self._m(rule), what, count, minimum)
+        return True
+
+    def note(self, s):
+        pass
+
+
+def r34(ctx):
+    """R3 RIGHTS-FOLLOW-PLACEMENT / R4 MATERIAL-TOGGLES: the clauses of the move-application rule set (C02.R5, R7, R8)
+    that are necessary for reachable positions to stay valid: a right is dropped whenever its king/rook leaves or its rook is
+    captured (otherwise is_sane rejects the successor and castling later conjures a rook), and every placement toggle is one of
+    the prescribed remove/add pairs (otherwise the number of men can grow)."""
+    from . import c02
+    from ..bb import bb
+    bb(('unit',), ctx.an())
+    sub = _Sub(ctx, {'C02.R5': 'C05.R3', 'C02.R7': 'C05.R4', 'C02.R8': 'C05.R4'})
+    sn = c02.summary(sub, c02.MN, 'C02.R5')
+    if sn is not None:
+        c02.r48(sub, sn)
+
+
 def run(ctx):
     r1(ctx)
     r2(ctx)
+    r34(ctx)
